@@ -169,9 +169,9 @@ package yubiattest
 //@ # ---------------------------------------------------------------- C16: the lenient certificate parser
 //@ # ParseCertificate itself is verified (one ASN.1 decode, trailing data rejected, then the field-by-field conversion);
 //@ # the conversion parseCertificate (reflection-driven ASN.1 code) is ASSUMED through the contract below.
+//@ # (an unhandled critical extension is reported together with the partially filled certificate: error and result can both be non-nil)
 //@ func parseCertificate(in)
 //@   flag logged
-//@   ensures result1 != nil ==> result0 == nil
 //@   ensures result1 == nil ==> (result0 != nil && fresh(result0))
 
 //@ # named curves (RFC 5480, 2.1.1.1): 1.2.840.10045.3.1.7 = P-256, 1.3.132.0.34 = P-384, 1.3.132.0.35 = P-521
@@ -214,7 +214,6 @@ package yubiattest
 //@   flag logged
 //@   let u0 = old(calls(asn1.Unmarshal))
 //@   let q0 = old(calls(parseCertificate))
-//@   ensures result1 != nil ==> result0 == nil
 //@   ensures result1 == nil ==> (result0 != nil && fresh(result0))
 //@   ensures [one-decode-of-the-whole-input] calls(asn1.Unmarshal) == u0 + 1 && arg(asn1.Unmarshal, u0, 0) == asn1Data
 //@   ensures [decode-failure-surfaces] ret(asn1.Unmarshal, u0, 1) != nil ==> (result1 == ret(asn1.Unmarshal, u0, 1) && calls(parseCertificate) == q0)
